@@ -75,7 +75,10 @@ func (c conc) build(es []entry) *gostatsd.MetricMap {
 		ts := gostatsd.Nanotime(1000 * e.D.TS)
 		switch e.Ty {
 		case "counter":
-			mm.Counters[name] = map[string]gostatsd.Counter{tk: {Value: int64(e.D.V), Timestamp: ts, Source: src, Tags: tags}}
+			if mm.Counters[name] == nil {
+				mm.Counters[name] = map[string]gostatsd.Counter{}
+			}
+			mm.Counters[name][tk] = gostatsd.Counter{Value: int64(e.D.V), Timestamp: ts, Source: src, Tags: tags}
 		case "gauge":
 			if mm.Gauges[name] == nil {
 				mm.Gauges[name] = map[string]gostatsd.Gauge{}
@@ -88,16 +91,70 @@ func (c conc) build(es []entry) *gostatsd.MetricMap {
 					vals = append(vals, float64(i+1))
 				}
 			}
-			mm.Timers[name] = map[string]gostatsd.Timer{tk: {Values: vals, SampledCount: float64(e.D.Cnt), Timestamp: ts, Source: src, Tags: tags}}
+			if mm.Timers[name] == nil {
+				mm.Timers[name] = map[string]gostatsd.Timer{}
+			}
+			mm.Timers[name][tk] = gostatsd.Timer{Values: vals, SampledCount: float64(e.D.Cnt), Timestamp: ts, Source: src, Tags: tags}
 		case "set":
 			m := map[string]struct{}{}
 			for _, v := range e.D.Mem {
 				m[v] = struct{}{}
 			}
-			mm.Sets[name] = map[string]gostatsd.Set{tk: {Values: m, Timestamp: ts, Source: src, Tags: tags}}
+			if mm.Sets[name] == nil {
+				mm.Sets[name] = map[string]gostatsd.Set{}
+			}
+			mm.Sets[name][tk] = gostatsd.Set{Values: m, Timestamp: ts, Source: src, Tags: tags}
 		}
 	}
 	return mm
+}
+
+// datapoints turns a batch into the datapoints a parser would have produced for it (MetricMap.Receive is how they get into a
+// consolidator slot); ok = false when the batch's timer sampled count cannot come from sample rates <= 1
+func (c conc) datapoints(es []entry, rng *vh.Rng) (ms []*gostatsd.Metric, ok bool) {
+	order := append([]entry{}, es...)
+	for i := len(order) - 1; i > 0; i-- {
+		j := rng.Intn(i + 1)
+		order[i], order[j] = order[j], order[i]
+	}
+	for _, e := range order {
+		name, tags, src := c.name[e.S], c.tags[e.S], c.source[e.S]
+		ts := gostatsd.Nanotime(1000 * e.D.TS)
+		mk := func(t gostatsd.MetricType, v float64, sv string, rate float64) {
+			ms = append(ms, &gostatsd.Metric{Name: name, Type: t, Value: v, StringValue: sv, Rate: rate, Tags: tags.Copy(), Source: src, Timestamp: ts})
+		}
+		switch e.Ty {
+		case "counter":
+			mk(gostatsd.COUNTER, float64(e.D.V), "", 1)
+		case "gauge":
+			mk(gostatsd.GAUGE, float64(e.D.V)*1.5, "", 1)
+		case "timer":
+			var vals []float64
+			for i, n := range e.D.Bag {
+				for k := 0; k < n; k++ {
+					vals = append(vals, float64(i+1))
+				}
+			}
+			if len(vals) == 0 || e.D.Cnt < len(vals) {
+				return nil, false
+			}
+			for i, v := range vals {
+				rate := 1.0
+				if i == 0 { // the first datapoint of the series carries the whole surplus of the sampled count
+					rate = 1 / float64(e.D.Cnt-(len(vals)-1))
+				}
+				mk(gostatsd.TIMER, v, "", rate)
+			}
+		case "set":
+			if len(e.D.Mem) == 0 {
+				return nil, false
+			}
+			for _, m := range e.D.Mem {
+				mk(gostatsd.SET, 0, m, 1)
+			}
+		}
+	}
+	return ms, true
 }
 
 // check compares a result with the canonical aggregate; returns (sig, desc) or "".
@@ -289,6 +346,24 @@ func TestCases(t *testing.T) {
 					mc.ReceiveMetricMap(cc.build(c.Maps[i]))
 				}
 				report("Consolidator", fmt.Sprintf("%s slots=%d", how, slots), gostatsd.MergeMaps(mc.Drain()))
+			}
+			// 6. datapoint by datapoint into consolidator slots (MetricMap.Receive), each batch into the next slot
+			for slots := 1; slots <= 3; slots++ {
+				sink := make(chan []*gostatsd.MetricMap, 1)
+				mc := gostatsd.NewMetricConsolidator(slots, false, time.Hour, sink)
+				expressible := true
+				for _, i := range p {
+					ms, ok := cc.datapoints(c.Maps[i], rng)
+					if !ok {
+						expressible = false
+						break
+					}
+					mc.ReceiveMetrics(ms)
+				}
+				if expressible {
+					report("Datapoints", fmt.Sprintf("%s slots=%d", how, slots), gostatsd.MergeMaps(mc.Drain()))
+					res.Hit("datapoint-route")
+				}
 			}
 			// 4. aggregator
 			a := statsd.NewMetricAggregator(nil, 0, 0, 0, 0, gostatsd.TimerSubtypes{}, 0)
